@@ -150,6 +150,15 @@ func (o AuthOracle) Step(si *engine.StepInfo) []engine.Finding {
 			}
 		}
 	}
+	// an accepted registration update by a node's own account is what the chain records for that node
+	if rm, ok := si.Op.Msg.(*nodetypes.MsgReset); ok && o.Prop == "C10" && si.Op.Meta["adv"] == "" && si.Res.OK {
+		post := snapOf(si.W, si.PostCtx, si.Post)
+		if n, ok := post.Nodes[rm.Creator]; ok {
+			if fmt.Sprint(n.TxAddresses) != fmt.Sprint(rm.TxAddresses) || n.Status != rm.Status {
+				paid = append(paid, fd("C10", "registration-differs-from-own-request", "", fmt.Sprintf("%s accepted, but the node record has status %d and %d transaction addresses %v", si.Op.Label, n.Status, len(n.TxAddresses), n.TxAddresses)))
+			}
+		}
+	}
 	// an accepted owner-signed permission update leaves the model with exactly the lists the owner signed
 	if pm, ok := si.Op.Msg.(*saotypes.MsgUpdataPermission); ok && o.Prop == "C09" && si.Op.Meta["adv"] == "" && si.Res.OK {
 		post := snapOf(si.W, si.PostCtx, si.Post)
@@ -452,6 +461,12 @@ func c10Setup(w *world.World) []engine.SetupStep {
 		// a did:sid owner with two bound accounts: T (first binding, hence its payment address) and V2
 		fixed(Tx("bind", "bind(C10 sid,T)", world.BindingMsg(sidC10, w.A(world.T), w.A(world.T), world.CosmosProof(w.A(world.T), sidC10.Did, "bind "+sidC10.Did, sidC10.Ts)))),
 		fixed(Tx("bind", "bind(C10 sid,V2,by T)", world.BindingMsg(sidC10, w.A(world.V2), w.A(world.T), world.CosmosProof(w.A(world.V2), sidC10.Did, "bind "+sidC10.Did, sidC10.Ts)))),
+		// provider S3 serves storage only (no gateway bit: not eligible for the super role yet), has declared address W, and
+		// holds enough capacity and stake to become a super node as soon as it declares the full status
+		fixed(Tx("create", "create(S3)", &nodetypes.MsgCreate{Creator: w.A(world.S3).S()})),
+		fixed(Tx("reset", "reset(S3,storage only,tx=[W])", &nodetypes.MsgReset{Creator: w.A(world.S3).S(), Status: nodetypes.NODE_STATUS_ONLINE | nodetypes.NODE_STATUS_SERVE_STORAGE | nodetypes.NODE_STATUS_ACCEPT_ORDER, TxAddresses: []string{w.A(world.W).S()}})),
+		fixed(Tx("addv", "addv(S3)", &nodetypes.MsgAddVstorage{Creator: w.A(world.S3).S(), Size_: 10_000_000})),
+		fixed(Tx("delegate", "delegate(S3,V,200M)", stakingDelegate(w, world.S3, sdk.ValAddress(w.A(world.V).Addr).String(), 200_000_000))),
 		// Q is a collaborator with read-write access to D1 (it may update the content at its own expense)
 		fixed(Tx("permission", "permission(11,rw=Q)", PermissionMsg(w, world.O, world.G, world.G, world.Data1, nil, []string{w.A(world.Q).Did}))))
 	return st
@@ -478,6 +493,20 @@ func c10Ops(w *world.World, ctx sdk.Context) []engine.Op {
 		}
 		if fmt.Sprint(mnode.TxAddresses) != fmt.Sprint(l) {
 			out = append(out, Tx("declare", fmt.Sprintf("declare(M,tx=%v)", names), &nodetypes.MsgReset{Creator: M.S(), Status: GatewayStatus, TxAddresses: l}))
+		}
+	}
+	// a provider re-declares its own registration (status and the addresses allowed to act for it)
+	if sn, ok := a.NodeKeeper.GetNode(ctx, w.A(world.S3).S()); ok {
+		for _, decl := range [][]int{{world.W}, {world.Q}} {
+			var l []string
+			for _, i := range decl {
+				l = append(l, w.A(i).S())
+			}
+			for _, st := range []uint32{FullStatus, nodetypes.NODE_STATUS_ONLINE | nodetypes.NODE_STATUS_SERVE_STORAGE | nodetypes.NODE_STATUS_ACCEPT_ORDER} {
+				if fmt.Sprint(sn.TxAddresses) != fmt.Sprint(l) || sn.Status != st {
+					out = append(out, Tx("declare", fmt.Sprintf("declare(S3,status=%d,tx=[%s])", st, w.A(decl[0]).Name), &nodetypes.MsgReset{Creator: w.A(world.S3).S(), Status: st, TxAddresses: l}))
+				}
+			}
 		}
 	}
 	for _, ord := range a.OrderKeeper.GetAllOrder(ctx) {
@@ -606,7 +635,7 @@ func C10Scenario(tier string) *engine.Scenario {
 	if tier == "thorough" {
 		d = 7
 	}
-	sc := &engine.Scenario{ID: "C10-actors", Depth: d, Oracle: AuthOracle{Prop: "C10"}}
+	sc := &engine.Scenario{ID: "C10-actors", Cfg: world.Config{VstorageThresh: 1_000_000}, Depth: d, Oracle: AuthOracle{Prop: "C10"}}
 	sc.Roots = []engine.Root{{Name: "B1", Setup: c10Setup}}
 	sc.Ops = func(w *world.World, ctx sdk.Context, s *engine.State) []engine.Op { return c10Ops(w, ctx) }
 	return sc
